@@ -2,9 +2,10 @@
 import itertools, json, os, re
 from concurrent.futures import ThreadPoolExecutor
 import vlib
+from props import c17_pair
 
 MANIFEST = dict(
-    level=("proof", "Eleven Coq theorems over an executable model of gids.c (+ the hash/xgetgr/xgetpw behaviour it relies "
+    level=("proof", "Coq theorems over an executable model of gids.c (+ the hash/xgetgr/xgetpw behaviour it relies "
            "on; reserved uid, buffer start sizes and growth factor regenerated from the source on every run): membership "
            "answer <-> the databases for all group/passwd contents with the two exclusions the code has (empty member name, "
            "uid (uid_t)-1); per-uid lists increasing and duplicate-free; early exit loses nothing; any ERANGE restart "
@@ -12,17 +13,31 @@ MANIFEST = dict(
            "doubling reaches every entry; a completed update installs the new build iff it succeeded and (check off | "
            "stat failed | mtime > previous load start), else map and load time are unchanged; SIGHUP resets the flag but "
            "does not by-pass the mtime test; for all interleavings of edits, update halves, SIGHUPs and lookups every answer "
-           "is the exact answer for one whole database version (LTS with the swap as one step).  Two stronger readings are "
+           "is the exact answer for one whole database version (LTS with the swap as one step).  The refresh clause is proved over "
+           "a model of the PAIR gids.c + timer.c (GidsTimerModel: refresh = callback on the timer thread in three parts, "
+           "SIGHUP = gids_update from another thread at any point, also inside a running refresh; Properties_C17_refresh.v): a "
+           "SIGHUP is never lost (a timer that was due when gids_update ran stays pending until a refresh STARTS, for every "
+           "event sequence), the timer thread is never stuck, the refresh that starts after a SIGHUP reads the databases with "
+           "every edit made before it and installs exactly their build when obliged to load and the build succeeds, every "
+           "answer is the exact answer for the version read by the last loading refresh; the variant with a timer_cancel "
+           "before `gids->timer = 0` is refuted by a witness.  Two stronger readings are "
            "refuted with witnesses replayed on the C code (edit in the second the load started; passwd-only edit).  Tied to "
            "the code by running the extracted LTS and gids.c/hash.c/xgetgr.c/xgetpw.c (ASan+UBSan+LSan, NSS/stat/time "
            "wrapped at link time, two ERANGE platform variants, a TSan build with a concurrent lookup thread) on the same "
-           "generated histories.", "7 C17"),
+           "generated histories; and by running /repo's gids.c AND timer.c together (harness/gids_timer_harness.c: virtual "
+           "clock, scripted databases and transient NSS failures, SIGHUPs delivered from another thread at three points inside "
+           "a running _gids_map_update) against the extracted pair model on generated event scripts, with the refresh clause "
+           "evaluated directly on the implementation's log.", "7 C17"),
     note="Trusted: Coq kernel+vm_compute, gen_facts probe, extraction (ExtrOcamlBasic), harness/driver glue, the fake NSS "
          "of the harness.  The C code is modelled, not verified: hash tables are association lists in the model, malloc "
-         "failure paths and EINTR are not modelled, a build reads the databases in one step.  Mutual exclusion of the swap "
-         "rests on the gids mutex: observed (TSan, old-or-new checker), not proved.",
+         "failure paths and EINTR are not modelled, a build reads the databases in one step (the version opened at "
+         "setgrent(); the pair harness serves a scan the version that was current when it opened the databases).  In the "
+         "pair model timer.c is abstracted to what gids.c uses (sorted stable active list, detached batch that cannot be "
+         "cancelled, ids below LONG_MAX sets; C18's TimerModel is the detailed model) and the clock is in ms.  Mutual "
+         "exclusion of the swap rests on the gids mutex: observed (TSan, old-or-new checker), not proved.",
     technique="Coq proof (induction over databases/schedules/traces, LTS invariant) + translator for constants + "
-              "differential correspondence on generated databases and histories + independent Python evaluation of the property")
+              "differential correspondence on generated databases and histories + gids.c and timer.c linked together "
+              "under a virtual clock with SIGHUPs parked inside refreshes + independent Python evaluation of the property")
 
 WRAP = ["-Wl,--wrap=getgrent_r,--wrap=setgrent,--wrap=endgrent,--wrap=getpwnam_r,--wrap=stat,--wrap=time"]
 SENT = 0xFFFFFFFF
@@ -488,7 +503,7 @@ def gallina_build_expr(line):
 
 def run(ctx):
     ctx.level = "proof"
-    proved = vlib.prove(ctx, ["Properties_C17.v"], facts=["gids"])
+    proved = vlib.prove(ctx, ["Properties_C17.v", "Properties_C17_refresh.v"], facts=["gids"])
     read_facts()
     ctx.log("proofs:", "ok" if proved else "BROKEN: " + getattr(ctx, "broken_obligation", "?"))
     ctx.cov["rule"] = (
@@ -499,8 +514,13 @@ def run(ctx):
         "gid_hash slot collisions, huge groups and long names forcing buffer growth; edit/refresh/SIGHUP/lookup histories "
         "with mtimes around the last load second, stat failures and failing builds; ERANGE-restart schedules on the "
         "'entry consumed' platform variant incl. the 15/16 limit; updates with a concurrent lookup thread (ASan and TSan "
-        "builds, old-or-new checker); every lookup of a 8x9 uid/gid universe compared; non-trivial = every case "
-        "(distinct by content)")
+        "builds, old-or-new checker); every lookup of a 8x9 uid/gid universe compared; pair = gids.c+timer.c together "
+        "(T lines): random scripts of edits (mtimes around the load second, stat failures), clock steps and jumps around "
+        "the interval, SIGHUPs at top level and at the three parking points inside refreshes (before the scan, after the "
+        "databases are opened, at the end of the scan), failing builds, lookups inside refreshes; intervals 0/1/60/3600; "
+        "compared token by token with the extracted GidsTimerModel and judged by an independent Python statement of "
+        "'a SIGHUP is followed by a refresh that starts after it; answers come from the version that must be visible'; "
+        "non-trivial = every case (distinct by content)")
     oracle = vlib.build_oracle(ctx, "gids")
     R = vlib.REPO
     src = [os.path.join(vlib.HARNESS, "gids_harness.c")] + [os.path.join(R, p) for p in (
@@ -521,10 +541,21 @@ def run(ctx):
             return
         exes[name] = exe
     cases = gen_cases(ctx)
+    pair_replay = None
     if ctx.replay:
         r = json.load(open(ctx.replay))
         if "case_line" in r:
             cases = [(r.get("binary", "g"), r["case_line"])]
+        elif "pair_case_line" in r:
+            cases, pair_replay = [], r["pair_case_line"]
+    # gids.c + timer.c together
+    pres = None
+    if pair_replay or not ctx.replay:
+        pres = c17_pair.run(ctx, "C17", oracle, 40000 if ctx.thorough else 3000, {"C17"}, replay_line=pair_replay)
+        ctx.cov["pair"] = dict(cases=pres["cases"], failing=len(pres["fails"]), mismatches=len(pres["mismatches"]),
+                               **pres.get("stats", {}))
+        ctx.log("gids+timer pair: %d cases, %d fail a clause, %d mismatches" % (
+            pres["cases"], len(pres["fails"]), len(pres["mismatches"])))
     dist = {}
     for b, l in cases:
         k = b + ":" + ("threaded" if " X" in l else "history" if l.count(" R") > 1 else "build")
@@ -621,6 +652,8 @@ def run(ctx):
     elif proved:
         ctx.violation("oracle does not build", {"obligation": "oracle build", "notes": ctx.notes[-1:]}, found_input=False)
     # verdict
+    if pres is not None:
+        c17_pair.report(ctx, "C17", pres, {"C17"})
     if direct_fail:
         b, l, o, why = min(direct_fail, key=lambda t: len(t[1]))
         ctx.violation("%s (%d failing cases; shortest: %s)" % (why, len(direct_fail), l[:400]),
